@@ -342,6 +342,19 @@ pub fn run(out_prefix: &str, shards: usize, families: &[String], seed: u64, full
                     }
                 }
             }
+            // many patterns (> 64, > 128): suffix-related patterns and duplicates whose ids are 64 and
+            // 128 apart, so that one state lists ids that coincide modulo 64 / 128 / 256
+            "wide" => {
+                for n in [66usize, 130, 258] {
+                    let mut l: Pats = (0..n).map(|i| vec![b'x', b'a' + (i % 26) as u8, b'a' + ((i / 26) % 26) as u8, b'q']).collect();
+                    l[0] = b"b".to_vec();
+                    l[1] = b"dup".to_vec();
+                    if n > 64 { l[64] = b"ab".to_vec(); l[65] = b"dup".to_vec(); }
+                    if n > 128 { l[128] = b"cab".to_vec(); l[129] = b"dup".to_vec(); }
+                    if n > 256 { l[256] = b"dcab".to_vec(); l[257] = b"dup".to_vec(); }
+                    emit(&mut out, &mut stats, &l, false);
+                }
+            }
             // small exhaustive families over bytes at the edges of the byte range
             "edge" => {
                 for alpha in [&[0x01u8, 0x02][..], &[0xFE, 0xFF][..], &[0x00, 0x7F][..], &[0x80, 0x01][..]] {
